@@ -100,7 +100,7 @@ def _equivariance(kind, tkind):
     return fn
 
 
-def _commute(kind, iters):
+def _commute(kind, iters, epoch=False):
     """optimize() commutes with the transform: two graphs G and T.G whose edges report the same (frame-invariant, by the
     cases above) errors and Jacobians, a solver stub that is a deterministic function of the linear system, the real
     optimize() on both: every vertex of the second graph must end at T + (vertex of the first)."""
@@ -113,11 +113,17 @@ def _commute(kind, iters):
         kinds = [kind, kind, kind]
         edges = [(0, 1), (1, 2), (2, 0)]
         env = install_stubs(P, g, solver=functional_solver(P) if P.symbolic else None)
-        G1, verts1, eobjs1, ids = structure_graph(P, g, kinds, edges, {0}, symbolic_ids=False, m=n)
+        # epoch: chi^2 is a free value per graph state, THE SAME value for corresponding states of the two graphs (chi^2 is
+        # frame invariant): every outcome of chi^2-dependent control flow (chi^2 rising, falling, ...) is explored
+        G1, verts1, eobjs1, ids = structure_graph(P, g, kinds, edges, {0}, symbolic_ids=False, m=n, epoch_chi2=epoch)
         T = mk_pose(P, g, kind, "T")
-        FreeEdge = make_free_edge_class(g)
+        FreeEdge = type(eobjs1[0]) if epoch else make_free_edge_class(g)
         verts2 = [g.Vertex(v.id, T + v.pose, fixed=v.fixed) for v in verts1]
         eobjs2 = [FreeEdge(list(e.vertex_ids), e.information, e._err, e._jacs) for e in eobjs1]
+        if epoch:
+            for e1, e2 in zip(eobjs1, eobjs2):
+                e2.k = e1.k
+                e2.__dict__["chi"] = e1.__dict__.setdefault("chi", {})
         G2 = g.Graph(eobjs2, verts2)
         import warnings
 
@@ -191,6 +197,8 @@ def cases(tier):
     for kind in ("R2", "R3", "SE2", "SE3"):
         for iters in (1, 2) if kind in ("R2", "R3") else (1,):
             out.append(Case("commute-%s-it%d" % (kind, iters), _commute(kind, iters), timeout=15, old_timeout=30, validate=v if kind != "SE3" else 1, val_tol=1e-4, feas_timeout_ms=1500, shards=2 if kind == "SE3" else 1))
+    for kind in ("SE2", "SE3"):
+        out.append(Case("commute-anychi2-%s-it1" % kind, _commute(kind, 1, epoch=True), timeout=15, old_timeout=30, validate=1, val_tol=1e-4, feas_timeout_ms=1500, shards=2 if kind == "SE3" else 1))
     for dim, iters, shared in [(2, 1, False), (2, 2, False), (3, 1, False), (2, 2, True), (3, 1, True)]:
         out.append(Case("commute-real-R%d-it%d%s" % (dim, iters, "-shared" if shared else ""), _commute_real(dim, iters, shared), timeout=15, old_timeout=30, validate=v, val_tol=1e-4, feas_timeout_ms=1500))
     return out
